@@ -189,11 +189,19 @@ inductive Kind where
   | str | bytes | bool | float | int | enum | msg
 deriving Repr, DecidableEq
 
+/-- how a field tracks presence: plain proto3 scalar (none), proto3 `optional` (a *synthetic* one-member
+oneof `_<field>`; `Field.oneof` is set for it too), member of a real `oneof`.  The defaults table of
+`rest_base.py.j2` never looks at it. -/
+inductive Presence where
+  | implicit | optional | oneofMember
+deriving Repr, DecidableEq
+
 structure FieldD where
   name : Str                -- proto field name
   kind : Kind
   repeated : Bool
   required : Bool           -- google.api.field_behavior = REQUIRED
+  presence : Presence       -- carried for the statement only: no function of the model reads it
 deriving Repr, DecidableEq
 
 structure MethodD where
@@ -274,6 +282,16 @@ def defaultText : Kind → Option Str
 (lowerCamel key, default of the element kind) -/
 def requiredDefaults (m : MethodD) : List (Str × Option Str) :=
   (m.fields.filter (fun f => f.required && (queryParams m).contains (fixSeg f.name))).map
+    (fun f => (camelKey (fixSeg f.name), defaultText f.kind))
+
+/-- the same method with every field's presence kind replaced -/
+def MethodD.withPresence (m : MethodD) (g : FieldD → Presence) : MethodD :=
+  { m with fields := m.fields.map (fun f => { f with presence := g f }) }
+
+/-- a table that skips fields with `Field.oneof` set (proto3 `optional` fields and members of a real oneof):
+NOT what the code does — the variant `required_defaults_skipping_oneof_counterexample` refutes -/
+def requiredDefaultsSkippingOneof (m : MethodD) : List (Str × Option Str) :=
+  (m.fields.filter (fun f => f.required && (queryParams m).contains (fixSeg f.name) && f.presence == .implicit)).map
     (fun f => (camelKey (fixSeg f.name), defaultText f.kind))
 
 end GapicModel.Model.Http
